@@ -27,7 +27,8 @@ def decEntry (j : Json) : Except String EntryIn := do
 
 def behaviourOf : String → Behaviour
   | "exit" => .exitsAtOnce | "hang" => .neverRegisters | "cfgfail" => .configFails
-  | "syncfail" => .syncFails | "die" => .diesLater | _ => .ok
+  | "syncfail" => .syncFails | "die" => .diesLater
+  | "idleclose" => .closesWhenIdle | "idleexit" => .exitsWhenIdle | _ => .ok
 
 /-- the exec fact of an entry (what happens when NRI tries to run it), from how the harness
     made the file -/
@@ -113,6 +114,15 @@ def judge (j : Json) : Except String Verdict := do
     let k ← getStr d "kind"
     pure (S n, if k == "dir" then Dropin.dir else Dropin.file (S (getStrD d "content"))))
   let anyDirDropin := dropins.any fun (_, v) => v == Dropin.dir
+  -- what follows Start: "r" = a relayed CreateContainer, "idle" = idle-acting probes act; then Stop
+  let planS : List String := match getStrList inp "plan" with
+    | .ok l => if (getOpt inp "plan").isSome then l else ["r", "r"]
+    | .error _ => ["r", "r"]
+  let plan : List Step := planS.map fun x => if x == "idle" then Step.idle else Step.request
+  let nreq := (planS.filter (· != "idle")).length
+  let reqNos := (List.range nreq).map (· + 1)
+  -- number of requests relayed before the first idle period
+  let beforeIdle := ((planS.takeWhile (· != "idle")).filter (· != "idle")).length
   let entries := esIn.map (toEntry · root)
   let oStart ← getStr obs "start"
   let oLog ← (← getArr obs "log").mapM decLog
@@ -131,30 +141,34 @@ def judge (j : Json) : Except String Verdict := do
     | .ok su =>
       let obsStarted := su.started.filter fun s => s.process && isObservable (U s.found.fileName)
       let files := obsStarted.map fun s => U s.found.fileName
+      let fin := runPlan (initRun su.active) plan
+      let createsOf (file : Str) : List String :=
+        (fin.log.filter (·.1 == file)).map fun p => evName (Ev.create p.2)
       let perFile := obsStarted.all fun s =>
-        eventsFor (U s.found.fileName) == (eventsOf s 2).map evName
+        eventsFor (U s.found.fileName) == (eventsOf s 0).map evName ++ createsOf s.found.fileName
       let noOthers := oLog.all (fun l => files.contains l.who) && oProbes.all (fun p => files.contains p.file)
       let launchOrder := linesOf "start" == files
-      let act := su.active.filter fun f => isObservable (U f.fileName)
-      let act2 := (activeAfterFirst su.active).filter fun f => isObservable (U f.fileName)
       let asSet (l : List String) := sortStrings l
-      let r1 := linesOf "create:r1"
-      let r2 := linesOf "create:r2"
-      let invoked := asSet r1 == asSet (act.map (U ·.fileName)) && asSet r2 == asSet (act2.map (U ·.fileName))
-        && nondecreasing (r1.map idxOfFile) && nondecreasing (r2.map idxOfFile)
+      let handed (n : Nat) : List String :=
+        ((fin.log.filter (·.2 == n)).map (U ·.1)).filter isObservable
+      let invoked := reqNos.all fun n =>
+        let got := linesOf s!"create:r{n}"
+        asSet got == asSet (handed n) && nondecreasing (got.map idxOfFile)
+      let act := su.active.filter fun f => isObservable (U f.fileName)
+      let stoppedAll := (stopAll fin).stopped
       let probesOk := obsStarted.all fun s =>
         match oProbes.find? (·.file == U s.found.fileName) with
         | none => false
         | some p =>
           p.env == expectedEnv s.found.idx s.found.base && p.fds == expectedFds &&
           p.configured == s.configured && (!s.configured || (p.config == U s.found.cfg && p.runtime == "verif-runtime/v18")) &&
-          (p.after == "gone") == stoppedEventually s
+          (p.after == "gone") == (stoppedEventually s && (!syncOk s || stoppedAll.contains s.found))
       let ok := oStart == "ok" && perFile && noOthers && launchOrder && invoked && probesOk && oStray == 0 && oR1 == "" && oR2 == ""
       let why := if oStart != "ok" then s!"model: Start succeeds; impl: {oStart}"
         else if !perFile then "per-plugin event sequence differs from the model's"
         else if !noOthers then "events or reports from a file the model does not launch"
         else if !launchOrder then s!"launch order: model {files} impl {linesOf "start"}"
-        else if !invoked then s!"invocations: model r1={act.map (U ·.fileName)} r2={act2.map (U ·.fileName)} impl r1={r1} r2={r2}"
+        else if !invoked then s!"invocations: model {reqNos.map handed} impl {reqNos.map fun n => linesOf s!"create:r{n}"}"
         else if !probesOk then "environment / descriptors / configuration / reaping of a probe differ from the model's"
         else if oStray != 0 then "stray processes after Stop"
         else "a request failed"
@@ -183,7 +197,9 @@ def judge (j : Json) : Except String Verdict := do
     (oStart == "ok",
       (if oStart == "invalid-name" then "C18:misnamed-executable-aborts-start" else s!"C18:start-failed:{oStart}"),
       s!"Adaptation.Start failed ({oStart}); pre-installed plugins present: {(esIn.filter pluginFile).map (·.name)}; started: {starts}"),
-    (oProbes.all (fun p => p.after != "alive") && oStray == 0, "C18:alive-after-stop",
+    (oProbes.all (fun p => p.after != "alive") && oStray == 0,
+      "C18:alive-after-stop:" ++ "+".intercalate (sortStrings ((oProbes.filter (·.after == "alive")).map fun p =>
+          match esIn.find? (·.name == p.file) with | some e => e.behave | none => "?").eraseDups),
       s!"probe processes still running after Stop: {(oProbes.filter (·.after == "alive")).map (·.file)} stray={oStray}"),
     (esIn.all fun e => !(pluginFile e && observable e && (root || (e.mode / 64) % 2 = 1)) || count e.name == 1,
       "C18:plugin-not-launched-once",
@@ -199,16 +215,18 @@ def judge (j : Json) : Except String Verdict := do
       s!"descriptors at entry: {oProbes.map fun p => (p.file, p.fds)}"),
     (oProbes.all (fun p => !p.configured || (p.config == configChoice p.file && p.runtime == "verif-runtime/v18")),
       "C18:config-choice", s!"configurations: {oProbes.map fun p => (p.file, p.config, configChoice p.file)}"),
-    (nondecreasing (starts.map idxOfFile) && nondecreasing ((linesOf "create:r1").map idxOfFile) &&
-      nondecreasing ((linesOf "create:r2").map idxOfFile),
-      "C18:order", s!"start {starts} r1 {linesOf "create:r1"} r2 {linesOf "create:r2"}"),
+    (nondecreasing (starts.map idxOfFile) && reqNos.all (fun n => nondecreasing ((linesOf s!"create:r{n}").map idxOfFile)),
+      "C18:order", s!"start {starts} requests {reqNos.map fun n => linesOf s!"create:r{n}"}"),
     (esIn.all fun e =>
         !(mayLaunch e && observable e && count e.name == 1) ||
         (let evs := eventsFor e.name
+         let up := ["start", "configure", "synchronize"]
+         let reqs (ns : List Nat) := ns.map fun n => s!"create:r{n}"
          match e.behave with
-         | "ok" => evs == ["start", "configure", "synchronize", "create:r1", "create:r2"]
-         | "die" => evs == ["start", "configure", "synchronize", "create:r1"]
-         | "syncfail" => evs == ["start", "configure", "synchronize"]
+         | "ok" => evs == up ++ reqs reqNos
+         | "die" => evs == up ++ reqs (reqNos.take 1)
+         | "idleclose" | "idleexit" => evs == up ++ reqs ((List.range beforeIdle).map (· + 1))
+         | "syncfail" => evs == up
          | "cfgfail" => evs == ["start", "configure"]
          | _ => evs == ["start"]),
       "C18:skip", s!"events: {(esIn.filter fun e => mayLaunch e && observable e).map fun e => (e.name, eventsFor e.name)}"),
@@ -236,7 +254,7 @@ def judge (j : Json) : Except String Verdict := do
     | some (_, base) =>
       if (AList.lookup dropins (S (p.file ++ ".conf"))).isSome then "cfg:specific"
       else if (AList.lookup dropins (base ++ confSuffix)).isSome then "cfg:generic" else "cfg:none"
-  let cover := [s!"stream:{stream}", s!"start:{oStart}", s!"launched:{oProbes.length}"]
+  let cover := [s!"stream:{stream}", s!"start:{oStart}", s!"launched:{oProbes.length}", s!"plan:{"-".intercalate planS}"]
     ++ kinds.eraseDups ++ behaves.eraseDups ++ cfgs.eraseDups
     ++ (oProbes.map fun p => s!"after:{p.after}").eraseDups
     ++ (if nodir then ["no-plugin-dir"] else []) ++ (if nodropins then ["no-dropin-dir"] else [])
